@@ -65,7 +65,7 @@ class Raised:
 def summarize(fn, *a, **k):
     """list of (guard, value-or-Raised) for the call fn(*a, **k) under the current path condition"""
     parent = core.cur()
-    child = Explorer(stats=parent.stats, base=parent.full_pc(), feas_timeout_ms=parent.feas_timeout_ms)
+    child = Explorer(stats=parent.stats, base=parent.full_pc(), feas_timeout_ms=parent.feas_timeout_ms, shared=parent.shared)
     res = []
 
     def body(e):
